@@ -3,7 +3,7 @@
 import json, subprocess
 
 HOOK_COMMITS = ["ac08067"]
-FIX_COMMITS = ["ee1d815", "296be57", "098316b", "7098e6b", "bcffdd6", "589a9d1", "787a52b", "01dcc1c", "13be19f"]
+FIX_COMMITS = ["ee1d815", "296be57", "098316b", "7098e6b", "bcffdd6", "589a9d1", "787a52b", "01dcc1c", "13be19f", "eb8a8e1", "143bda1", "08fee98", "76d9565", "2fac958", "f13a010"]
 
 # id -> (technique, level text, level note, design ref)
 CHECKS = {
@@ -46,6 +46,9 @@ CHECKS = {
  "C20": ("bounded-exhaustive enumeration of descriptions x rewrite-site subsets (E1); byte comparison of outputs",
          "For every accepted description of the layout space all compatible combinations (up to 8 sites) of: explicit address equal to the current offset, unnamed gap <-> address / #[size], #[size] equal to the natural size; for vftables every subset of functions given its current #[index] (with gaps and declared sizes); for enums every subset of implicit variants given its implicit value; every definition order of a multi-type module; each also re-spelled in hex and with digit separators. The rewritten description must be accepted and produce byte-identical files.",
          "Rewrite sites and current offsets come from the reference layout model.", "DESIGN.md §6 C20"),
+ "C12": ("bounded-exhaustive robustness menus (E1) and token-sequence exploration continued into build (E3), each case evaluated in a resource-limited worker subprocess",
+         "Every numeric position x a boundary-integer alphabet (singly and all pairs per template), every identifier position x an identifier alphabet (raw, generic, non-ASCII, keywords), every known attribute name x 10 shapes x 12 positions, structural oddities, the dependency graphs of C10, public-API call sequences (up to 3 add_module calls x 4 path kinds, then build), and every token sequence the parser accepts, all at widths 4 and 8 through parse, add_module, build and emit under catch_unwind inside worker processes with a 4 GiB address-space limit and a no-progress watchdog; every rejected token text up to length 3 through add_file must report path:line:column inside the file. Outcome Ok/Err is fine; panic, abort, stall or memory kill is a violation attributed to the case and confirmed by a solitary re-run.",
+         "Resource use is judged by fixed generous caps, not asymptotically; table-sized numeric positions are capped (4096 quick / 65536 thorough).", "DESIGN.md §6 C12"),
 }
 
 NOT_YET = {
